@@ -31,6 +31,7 @@ func runC18(seed uint64, n int, tier string, outDir string) []*Stats {
 		nGlue = 40
 	}
 	glueTargeted(st)
+	glueSpecialNames(st)
 	gluePairs(r, nGlue, st)
 
 	st.Finish("distinct case key AND exercises a non-identity path (a key is recognised/substituted, a hash stream has >1 item, a build pair with an effective edit)")
